@@ -116,6 +116,43 @@ def _check_history(case, strict):
     return discs, bool(cls & {"wrap-crossed", "fragmented", "multi"}), sorted(cls)
 
 
+def one_call_wrap(kind, n):
+    """a single call that needs about 65535 counts of its own: whatever the driver numbers while it builds the requests of a call,
+    every message it sends must differ from the one sent just before it"""
+    from pycomm3.exceptions import PycommError
+    from ..refplc import RefPLC
+    pd = {"udts": [], "programs": [], "extras": [], "tags": [
+        {"name": "x", "scope": None, "type": "DINT", "dims": [], "instance": 3, "access": 0, "alias": False},
+        {"name": "y", "scope": None, "type": "DINT", "dims": [], "instance": 4, "access": 0, "alias": False}]}
+    tgt = RefPLC(pd, {"/x": bytes(4), "/y": bytes(4)}, {})
+    harness.install(tgt, budget=200_000)
+    discs = []
+    try:
+        plc = harness.open_logix(tgt)
+        harness.CURRENT["budget"] = 200_000
+        tgt.audits[:] = [a for a in tgt.audits if a[0] != "C17"]
+        try:
+            if kind == "write-then-read":
+                plc.write(("x", 7))
+                res = plc.read(*(["x", "y"] * (n // 2)))
+                bad = [t for t in res if not t]
+                if bad:
+                    discs.append(Disc("one-call.failed-requests", f"{len(bad)} of {len(res)} reads of one call failed, e.g. {bad[0]!r}"[:300]))
+            else:
+                res = plc.write(("x.0", True), *[("y", i & 0xFFFF) for i in range(n)])
+                if tgt.memory["/x"][0] & 1 != 1:
+                    discs.append(Disc("one-call.bit-write-lost", f"x.0 reported {res[0]!r} but the controller's bit is still 0"[:300]))
+        except PycommError as e:
+            discs.append(Disc(f"one-call.raises.{type(e).__name__}", repr(e)[:300]))
+        discs += [Disc("one-call." + code, f"{detail} ({kind}, {n} requests in one call)") for prop, code, detail in tgt.audits if prop == "C17"]
+        plc.close()
+    except harness.StepBudgetExceeded:
+        discs.append(Disc("one-call.nonterminating", kind))
+    finally:
+        harness.uninstall()
+    return discs[:3]
+
+
 def long_run(n, phase):
     """n consecutive connected generic messages starting at counter phase `phase`"""
     from pycomm3 import CIPDriver
@@ -180,6 +217,10 @@ def sample_of(c):
 def plan(tier):
     n = 15 if tier == "quick" else 56
     jobs = [{"part": "hist", "examples": 40 if tier == "quick" else 500} for _ in range(n)]
+    jobs.append({"part": "one-call", "kind": "write-then-read", "n": 65534})
+    if tier != "quick":
+        jobs.append({"part": "one-call", "kind": "bit-write-and-writes", "n": 65272})
+        jobs += [{"part": "one-call", "kind": "write-then-read", "n": n} for n in (65270, 65272, 65274, 65532, 65536)]
     if tier == "quick":
         jobs.append({"part": "long", "n": 70000, "phase": 31000})
     else:
@@ -189,6 +230,12 @@ def plan(tier):
 
 
 def run_job(ctx, job):
+    if job["part"] == "one-call":
+        discs = one_call_wrap(job["kind"], job["n"])
+        ctx.bulk(job["n"], [ctx.seed ^ job["n"], hash(job["kind"]) & 0xFFFF], {"one-call-wrap": 1})
+        for d in discs:
+            ctx.violation(d, "one-call", {"kind": job["kind"], "n": job["n"]})
+        return
     if job["part"] == "long":
         discs = long_run(job["n"], job["phase"])
         ctx.bulk(job["n"], [ctx.seed ^ job["phase"], job["n"]], {"long-run": 1, "long-run-requests": job["n"]})
@@ -202,4 +249,6 @@ def run_job(ctx, job):
 def replay(ctx, kind, case):
     if kind == "long":
         return long_run(case["n"], case["phase"])
+    if kind == "one-call":
+        return one_call_wrap(case["kind"], case["n"])
     return check_history(case)[0]
